@@ -363,10 +363,11 @@ def run_c05(tier, seed):
     out.notes['programs'] = len(jobs_dfs) + len(jobs_rand)
     out.notes['schedules_enumerated_dfs'] = sum(1 for t in traces if t['id'] <= 10 ** 9) - len(jobs_rand)
     free_running(out, tier, seed)
-    out.assumptions += ['clients are real threads with separate or shared Cache objects; separate OS processes are '
-                        'covered by the kill/fork checks and free-running runs, not by the scheduler',
+    out.assumptions += ['scheduled clients are real threads with separate or shared Cache objects; separate OS processes run freely '
+                        '(forked, calls stamped by a shared counter) and are checked for linearizability, they are not scheduled',
                         'SQLite WAL snapshot isolation and BEGIN IMMEDIATE exclusion (statements inside a held write '
-                        'transaction are not scheduling points)']
+                        'transaction are scheduling points only for threads sharing one Cache object, whose Python-level '
+                        'state they share)']
     return out.finish()
 
 
